@@ -1,9 +1,11 @@
 package props
 
 import (
+	"errors"
 	"fmt"
 	"reflect"
 	"sync"
+	"time"
 	"unsafe"
 
 	"pgregory.net/rapid"
@@ -84,11 +86,26 @@ func checkPoison(b []byte) int {
 	return -1
 }
 
-func (p *instPool) Get() interface{} {
+// poolView is the BufferPool handed to one connection: it forwards to the
+// shared instrumented pool under that connection's identity, so Get/Put are
+// attributed exactly even when connections run concurrently.
+type poolView struct {
+	p  *instPool
+	id int
+}
+
+func (v poolView) Get() interface{}  { return v.p.getFor(v.id) }
+func (v poolView) Put(x interface{}) { v.p.putFor(v.id, x) }
+
+func (p *instPool) view(id int) poolView { return poolView{p, id} }
+
+func (p *instPool) Get() interface{}  { return p.getFor(p.cur) }
+func (p *instPool) Put(v interface{}) { p.putFor(p.cur, v) }
+
+func (p *instPool) getFor(id int) interface{} {
 	p.mu.Lock()
 	defer p.mu.Unlock()
 	p.gets++
-	id := p.cur
 	p.outstanding[id]++
 	if p.outstanding[id] > 1 {
 		p.fail("connection %d took a second buffer while still holding one", id)
@@ -112,11 +129,10 @@ func (p *instPool) Get() interface{} {
 	return v
 }
 
-func (p *instPool) Put(v interface{}) {
+func (p *instPool) putFor(id int, v interface{}) {
 	p.mu.Lock()
 	defer p.mu.Unlock()
 	p.puts++
-	id := p.cur
 	p.outstanding[id]--
 	if p.outstanding[id] < 0 {
 		p.fail("connection %d returned a buffer it did not hold (double Put)", id)
@@ -167,6 +183,8 @@ type PoolCase struct {
 	// Order picks which connection makes its next API call (cycled; finished
 	// connections are skipped).
 	Order []int `json:"order"`
+	// Conc: the connections run in parallel goroutines instead (race leg).
+	Conc bool `json:"conc,omitempty"`
 }
 
 func genPoolCase(t *rapid.T) PoolCase {
@@ -195,6 +213,7 @@ func checkC20(c PoolCase, o *Obs) error {
 		turn chan struct{}
 		done chan struct{}
 		fin  bool
+		finished bool // set under pool.mu when the program has ended (concurrent leg)
 		tw   *WTrace
 		tr   *xport.ScriptConn
 		err  error
@@ -208,8 +227,7 @@ func checkC20(c PoolCase, o *Obs) error {
 		st := &cstate{turn: make(chan struct{}), done: make(chan struct{})}
 		states[i] = st
 		st.tr = xport.NewScriptConn(nil, nil)
-		pool.cur = i
-		conn, err := NewConn(pc.W, st.tr, pool)
+		conn, err := NewConn(pc.W, st.tr, pool.view(i))
 		if err != nil {
 			return err
 		}
@@ -233,6 +251,8 @@ func checkC20(c PoolCase, o *Obs) error {
 				granted = false
 			}
 			after := func(cl *Call, holding bool) {
+				pool.mu.Lock()
+				defer pool.mu.Unlock()
 				want := 0
 				if holding {
 					want = 1
@@ -245,11 +265,48 @@ func checkC20(c PoolCase, o *Obs) error {
 			}
 			st.tw = RunWriteHooked(conn, st.tr, steps, pc.W.Compress, pc.W.Server, gate, after)
 			st.fin = true
+			pool.mu.Lock()
+			st.finished = true
+			pool.mu.Unlock()
 			st.done <- struct{}{}
 		}()
 	}
+	if c.Conc {
+		// free-running: every program in its own goroutine, no hand-over
+		for i := range states {
+			st := states[i]
+			go func() {
+				for !st.fin {
+					st.turn <- struct{}{}
+					<-st.done
+				}
+			}()
+		}
+		deadline := time.After(60 * time.Second)
+		for _, st := range states {
+			for {
+				pool.mu.Lock()
+				fin := st.finished
+				pool.mu.Unlock()
+				if fin {
+					break
+				}
+				select {
+				case <-deadline:
+					failHard(errors.New("C20: concurrent programs did not finish within 60 s"))
+				case <-time.After(time.Millisecond):
+				}
+			}
+			if st.err != nil && firstErr == nil {
+				firstErr = st.err
+			}
+		}
+	}
 	// interleave call by call
 	alive := n
+	if c.Conc {
+		alive = 0
+	}
 	grant := func(i int) {
 		st := states[i]
 		if st.fin {
@@ -278,6 +335,11 @@ func checkC20(c PoolCase, o *Obs) error {
 	}
 	if firstErr != nil {
 		return firstErr
+	}
+	if c.Conc {
+		if rep, grew := raceLogGrew(); grew {
+			return fmt.Errorf("DATA RACE reported while %d connections shared one write buffer pool:\n%s", n, rep)
+		}
 	}
 	pool.finalCheck()
 	if len(pool.violations) > 0 {
